@@ -370,6 +370,16 @@ def _add_bounded(self, fn, du, t, ops):
         for v in (va, vb):
             if v[0] == "cast" and v[1] in WIDE:
                 return "128-bit accumulator plus a zero/sign-extended machine-word value: 2^63 additions would be needed to overflow"
+    if ty in ("i32", "u32"):
+        # ASSUMPTION (stated in every evidence file that uses it): parser inputs are smaller than 2 GiB
+        for x, other in ((a, vb), (b, va)):
+            if x.get("k") not in ("copy", "move"):
+                continue
+            cx = du.canon(place_key(x))
+            if not cx[1] and _is_counter(du, cx[0]):
+                k = const_int(strip_casts(other))
+                if (k is not None and 0 <= k <= 1) or _is_count(du, other):
+                    return "32-bit counter advanced by at most one per input byte (or by a read count): cannot wrap for inputs smaller than 2 GiB (stated assumption)"
     if ty in W64:
         for x, other in ((a, vb), (b, va)):
             if x.get("k") not in ("copy", "move"):
